@@ -8,6 +8,7 @@ import tempfile
 
 from core import Check, HarnessError, run_check
 import fakemp
+import gen
 
 DATA = "/repo/tests/data/"
 
@@ -117,7 +118,167 @@ def flush_model(ck):
     del PENDING[:]
 
 
+# ---------------------------------------------------------------------------------------------------- C12
+def mutate(rng, ref, rate):
+    """derive a read from the path slice by substitutions / insertions / deletions; returns (read, true alignment ops)"""
+    out, ops = [], []
+    i = 0
+
+    def add(n, c):
+        if n <= 0:
+            return
+        # fragmented on purpose: sometimes a run is split into two records of the same operation
+        if ops and ops[-1][1] == c and rng.random() < 0.7:
+            ops[-1][0] += n
+        else:
+            ops.append([n, c])
+    while i < len(ref):
+        r = rng.random()
+        if r < rate:
+            b = rng.choice([x for x in "ACGT" if x != ref[i]])
+            out.append(b)
+            add(1, "X")
+            i += 1
+        elif r < rate * 1.5:
+            k = rng.choice([1, 1, 2, 5, 30, 60])
+            out.append(gen.rseq(rng, k))
+            add(k, "I")
+        elif r < rate * 2:
+            k = min(rng.choice([1, 1, 2, 5, 30, 60]), len(ref) - i)
+            add(k, "D")
+            i += k
+        else:
+            out.append(ref[i])
+            add(1, "=")
+            i += 1
+    return "".join(out), "".join("%d%s" % (n, c) for n, c in ops)
+
+
+def c12(ck, tmp):
+    import gen as G
+    from gaftools.cli.realign import run_realign
+    from p_graph import tokenize_gfa
+    rng = ck.rng
+    nfiles = 40 if ck.tier == "quick" else 600
+    for it in range(nfiles):
+        g = G.rgfa(rng, maxlen=40, max_ref_segs=5)
+        if it % 6 == 0:   # one long node so that a > 60 000-base alignment exists
+            g.segs[0]["seq"] = G.rseq(rng, 60500)
+            so = 0
+            for sg in g.segs:
+                if sg["SN"] == g.segs[0]["SN"]:
+                    sg["SO"] = so
+                    so += len(sg["seq"])
+        adj = g.adjacency()
+        seqd = g.seqd()
+        text = g.text()
+        tok = tokenize_gfa(text)
+        lines, reads, steps_l = [], [], []
+        for k in range(rng.randint(4, 14)):
+            w = G.walk(rng, g, adj, maxsteps=5)
+            if it % 6 == 0 and k == 0:
+                w = [(g.segs[0]["id"], rng.choice("+-"))]
+            pseq = "".join(seqd[n] if o == "+" else G.rc(seqd[n]) for n, o in w)
+            if len(pseq) < 2:
+                continue
+            if it % 6 == 0 and k == 0:
+                a, b = 100, 100 + 60001 + rng.randint(0, 50)
+            else:
+                a = rng.randrange(0, len(pseq) - 1)
+                b = rng.randrange(a + 1, min(len(pseq), a + 400) + 1)
+                if rng.random() < 0.3:   # offsets on node boundaries
+                    a, b = 0, len(pseq)
+            ref = pseq[a:b]
+            rate = rng.choice([0.0, 0.02, 0.05, 0.15])
+            if len(ref) > 60000:
+                q, cg = ref, "%d=" % len(ref)
+            else:
+                q, cg = mutate(rng, ref, rate)
+            if not q:
+                continue
+            pre, post = G.rseq(rng, rng.randint(0, 6)), G.rseq(rng, rng.randint(0, 6))
+            read = pre + q + post
+            name = "rd%d_%d" % (it, k)
+            tags = G.rand_tags(rng, cigar=cg)
+            lines.append(G.gaf_record(name + (" extra" if rng.random() < 0.3 else ""), len(read), len(pre), len(pre) + len(q), "+", G.path_str(w),
+                                      len(pseq), a, b, 1, 2, rng.choice([0, 60]), tags))
+            reads.append((name, read))
+            steps_l.append([[o == "+", n] for n, o in w])
+        if not lines:
+            continue
+        gfa = os.path.join(tmp, "r.gfa")
+        gaf = os.path.join(tmp, "r.gaf")
+        fa = os.path.join(tmp, "r.fa")
+        for f in (fa + ".fai",):
+            if os.path.exists(f):
+                os.remove(f)
+        G.write_text(gfa, text)
+        if rng.random() < 0.25:
+            gaf += ".gz"
+            G.write_bgzf(gaf, "".join(l + "\n" for l in lines))
+        else:
+            G.write_text(gaf, "".join(l + "\n" for l in lines))
+        G.write_text(fa, "".join(">%s\n%s\n" % (n, s) for n, s in reads))
+        out = os.path.join(tmp, "r.out")
+        cores = rng.choice([1, 1, 2])
+        os.environ["GAFTOOLS_VERIF_BATCH_SIZE"] = str(rng.choice([2, 3, 1000]))
+        try:
+            run_realign(gaf, gfa, fa, output=out, cores=cores)
+            olines = open(out).read().splitlines()
+        except BaseException as e:  # noqa
+            ck.violation("realign crashed: %s: %s" % (type(e).__name__, e), {"gfa": text[:5000], "gaf": [l[:300] for l in lines]})
+            continue
+        finally:
+            if os.path.exists(gaf):
+                os.remove(gaf)
+        if len(olines) != len(lines):
+            ck.violation("realign wrote %d records for %d input records" % (len(olines), len(lines)), {"gfa": text[:5000], "gaf": [l[:300] for l in lines], "out": [l[:300] for l in olines]})
+            continue
+        cases = [{"op": "realign.record", "gfa": tok, "steps": st, "line_in": li, "line_out": lo, "read": rd[1]}
+                 for st, li, lo, rd in zip(steps_l, lines, olines, reads)]
+        rep = ck.driver(cases)
+        for c, r, li, lo in zip(cases, rep, lines, olines):
+            long_ = r.get("pass_through", False)
+            edited = r.get("in_cost", 0) not in (0, None)
+            rev = any(not s[0] for s in c["steps"])
+            ck.case({"in": li[:2000]}, r["valid"] and (edited or rev), sample={"in": li[:300], "out": lo[:300]} if edited and not long_ else None)
+            ck.count("pass-through" if long_ else "realigned")
+            ck.count("input-cigar-valid" if r.get("in_valid") else "input-cigar-not-an-alignment")
+            if r.get("out_cost") is not None and r.get("in_cost") is not None and not long_:
+                ck.count("cost-improved" if r["out_cost"] < r["in_cost"] else "cost-equal" if r["out_cost"] == r["in_cost"] else "cost-worse")
+            if not r["valid"]:
+                ck.count("invalid")
+                continue
+            if not r["spec_on_impl"]:
+                short = len(li) < 4000
+                ck.violation("realigned record violates C12 (CIGAR not a valid end-to-end alignment of read slice vs path slice / tallies / cost / untouched columns / pass-through)",
+                             {"gfa": text if short else text[:3000], "line_in": li if short else li[:3000], "line_out": lo if short else lo[:3000], "ref": r["ref"][:3000], "query": r["query"][:3000],
+                              "in_cost": r.get("in_cost"), "out_cost": r.get("out_cost")})
+    os.environ.pop("GAFTOOLS_VERIF_BATCH_SIZE", None)
+
+
+def main_c12():
+    ck = Check("C12")
+    ck.trusted = ["Lean 4.33.0 kernel", "axioms: propext, Classical.choice, Quot.sound (audited)", "correspondence harness + JSON driver",
+                  "WFA2-lib / pywfa (foreign code): AlignerContract is a hypothesis of realign_record, monitored on every case by the proved checker",
+                  "pysam.FastaFile.fetch = slice of the named read; real multiprocessing for these runs"]
+    ck.assumptions = ["AlignerContract: the aligner returns a valid, cost-optimal end-to-end alignment (monitored, not proved)",
+                      "cost comparison with the input CIGAR only when the input CIGAR is itself a valid alignment of the two slices"]
+    ck.canon = ["log output ignored"]
+    ck.lean_build(["Gaftools.Props.C12"])
+    ck.audit("C12.lean")
+    tmp = tempfile.mkdtemp(prefix="gtv-c12-")
+    try:
+        c12(ck, tmp)
+    finally:
+        shutil.rmtree(tmp, ignore_errors=True)
+    ck.rule = "random rGFAs with sequences x walks (forward/reverse steps, offsets anywhere or on node boundaries) x reads derived by substitutions/insertions/deletions at rates 0-15% with indels up to 60 and fragmented true CIGARs; one > 60 000-base record every sixth file; cores 1-2, batch sizes 2/3/1000, plain/BGZF; non-trivial = the read differs from the path slice or the path has a reverse step"
+    return ck.finish()
+
+
 def main(prop):
+    if prop == "C12":
+        return main_c12()
     ck = Check(prop)
     ck.trusted = ["Lean 4.33.0 kernel", "axioms: propext, Classical.choice, Quot.sound (audited)", "correspondence harness + JSON driver",
                   "harness/fakemp.py: the scripted multiprocessing stand-in (Queue FIFO, get(timeout) raises Empty only when nothing is readable, exit 0 implies flushed feeder, channel operations atomic w.r.t. death)",
